@@ -41,6 +41,35 @@ def _modules(P):
     return out
 
 
+def multimap_inserts(P, R, rid, modules):
+    """the name maps of the queries are multimaps (several elements may share a name): an element is recorded by appending to the list
+    under its name.  `D.setdefault(k, [x])` with the result thrown away records x only when k is new — every later element of that name
+    is marked as seen but can never be found by an exact pattern."""
+    R.rule(rid, "name maps record every element: no `D.setdefault(k, [x])` whose result is discarded (it keeps the first element of a name only)")
+    n = 0
+    for mod in modules:
+        for f in mod.all_funcs():
+            for st in walk_local(f.node):
+                c = st.value if isinstance(st, ast.Expr) else None
+                if isinstance(c, ast.Call) and isinstance(c.func, ast.Attribute) and c.func.attr == "setdefault" and len(c.args) == 2:
+                    n += 1
+                    d = c.args[1]
+                    if isinstance(d, (ast.List, ast.Set, ast.Tuple)) and d.elts:
+                        R.bad(rid, "%s|setdefault %s" % (f.key, norm(c.func.value)), f.loc(st),
+                              "%s: `%s` records `%s` only when `%s` is not in `%s` yet — a second element under the same key is dropped, so exact "
+                              "patterns return one of several same-named elements while wildcard patterns return all"
+                              % (f.qualname, short(c, 60), short(d.elts[0], 30), short(c.args[0], 30), norm(c.func.value)))
+                    else:
+                        R.ok(rid, "%s: %s" % (f.qualname, short(c, 50)), f.loc(st))
+                # the appending forms are counted so that the rule knows it is looking at the recording code
+                if isinstance(c, ast.Call) and isinstance(c.func, ast.Attribute) and c.func.attr == "append" and isinstance(c.func.value, (ast.Subscript, ast.Call)) \
+                        and "namemap" in norm(c.func.value):
+                    n += 1
+                    R.ok(rid, "%s: %s" % (f.qualname, short(c, 50)), f.loc(st))
+    R.count("name-map insertions (%s)" % rid, n)
+    R.floor("name-map insertions (%s)" % rid, 3)
+
+
 def _family(P):
     """name -> FuncInfo for the query family: helpers of patterns.py, lookup, and every get_X/_get_X/_get_X_raw"""
     fam = {}
@@ -159,8 +188,8 @@ def _q2_q4(ctx, R):
                  "non-regex matcher treats as special")
     P = ctx.P
     pm = P.module(PAT)
-    vm = pm.functions["_value_matches_pattern"]
-    ia = pm.functions["_is_pattern_absolute"]
+    vm = inlined_view(P, pm.functions["_value_matches_pattern"])
+    ia = inlined_view(P, pm.functions["_is_pattern_absolute"])
 
     def folded(e):
         return isinstance(e, ast.Call) and isinstance(e.func, ast.Attribute) and e.func.attr in ("lower", "casefold", "upper")
@@ -939,7 +968,7 @@ def _q9(ctx, R):
           "on top in every public query; Q4 the wildcard set of _is_pattern_absolute equals the matcher's special characters; Q5 every "
           "yield of a raw generator is dominated by a de-duplication idiom, and the set / name map a later stage selects from is kept disjoint from what earlier stages returned; Q9 the lookup registry is not modified on a path that ends in a refusal; Q7 the fallback scan used when no accelerated lookup is registered covers the five (parent, child) kinds, tests the key on the child and compares value with child[key], never stopping early; Q6 accepted option names equal the names read, documented "
           "defaults. Decides plumbing, option and de-duplication structure; does not decide that roots/selection/recursive produce the "
-          "right unfiltered set.")
+          "right unfiltered set. Q10 the name maps record every element (no `setdefault(k, [x])` with the result discarded); the fallback scan does not sit inside a try whose handler ends it.")
 def check_c13(ctx, R):
     from .namespace_rules import fallback_scan
     _q8(ctx, R)
@@ -952,3 +981,4 @@ def check_c13(ctx, R):
     _q3_q6(ctx, R)
     _q5(ctx, R)
     _q9(ctx, R)
+    multimap_inserts(ctx.P, R, "Q10", _modules(ctx.P))
